@@ -466,7 +466,7 @@ func c12Render(p *Program, T *types.Named) (enc, dec string) {
 		return "", false
 	}
 	em := p.SSA().FuncValue(methodOfNamed(T, "Encode"))
-	ctx := &provCtx{p: p, env: map[*ssa.Parameter]string{}, seen: map[ssa.Value]bool{}, leaf: leaf}
+	ctx := &provCtx{p: p, env: map[*ssa.Parameter]string{}, seen: map[ssa.Value]bool{}, leaf: leaf, keepZeros: true}
 	var as []string
 	for _, b := range em.Blocks {
 		if ret, ok := b.Instrs[len(b.Instrs)-1].(*ssa.Return); ok {
